@@ -568,8 +568,9 @@ MANIFEST = {
             "dispatched mnemonic's handler has the architectural effect signature (flag writers, access widths/counts/"
             "extension, link writers, indirect transfers, CBZ/TBZ polarity); no operand register is read after another "
             "was written except reviewed write-back; no definite width error; successors are mutually exclusive and "
-            "exhaustive; handlers set entry/exit; terminators are exactly the branches. It does not decide flag values at "
-            "carry/overflow boundaries, immediates or shift amounts.",
+            "exhaustive; handlers set entry/exit; terminators are exactly the branches; SUBS carry polarity; no flag of "
+            "ADDS/SUBS is a constant for the 32/64-bit register and immediate forms (bit provenance). It does not decide "
+            "flag values beyond that, immediates or shift amounts.",
     "note": "Trusted: rustc nightly HIR; ilshape transfer functions (register get/set modelled from the table, checked "
             "against get/set by R1); the reference rows transcribed from the Arm ARM keyed by bad64 enumerators. Known: SUBS "
             "sets C as borrow (pinned by the suite's subs_xn test), pinned by the suite.",
